@@ -17,7 +17,30 @@ type modInfo struct {
 	callees map[*ssa.Function][]*ssa.Function
 }
 
+// localRoot reports whether an address is rooted at an object allocated in
+// the same function (stores into it are invisible to callers' prior knowledge).
+func localRoot(v ssa.Value) bool {
+	for i := 0; i < 8; i++ {
+		switch x := v.(type) {
+		case *ssa.FieldAddr:
+			v = x.X
+		case *ssa.IndexAddr:
+			v = x.X
+		case *ssa.Slice:
+			v = x.X
+		case *ssa.Alloc, *ssa.MakeSlice:
+			return true
+		default:
+			return false
+		}
+	}
+	return false
+}
+
 func storeClass(addr ssa.Value) (string, bool) {
+	if localRoot(addr) {
+		return "", false
+	}
 	switch x := addr.(type) {
 	case *ssa.FieldAddr:
 		fld := x.X.Type().Underlying().(*types.Pointer).Elem().Underlying().(*types.Struct).Field(x.Field)
@@ -113,9 +136,13 @@ func (p *Prog) mods() *modInfo {
 				}
 				switch p.calleeDesc(x) {
 				case "builtin:copy":
-					d["E:*"+typeKey(cc.Args[0].Type().Underlying().(*types.Slice).Elem())] = true
+					if !localRoot(cc.Args[0]) {
+						d["E:*"+typeKey(cc.Args[0].Type().Underlying().(*types.Slice).Elem())] = true
+					}
 				case "binary.bigEndian.PutUint16", "binary.bigEndian.PutUint32", "binary.bigEndian.PutUint64", "io.ReadFull":
-					d["E:*uint8"] = true
+					if !localRoot(cc.Args[1]) {
+						d["E:*uint8"] = true
+					}
 				}
 			}
 		})
